@@ -519,12 +519,16 @@ func (c *Conn) Parse(data []byte) (retErr error) {
 								return
 							}
 						}
-						c.msgType = 0
-						c.compress = false
-						c.expectingFragments = false
-					} else {
-						c.expectingFragments = true
 					}
+				}
+				// the fragmentation state is tracked whichever handlers are set, so
+				// that validFrame rejects a new data frame inside a fragmented message.
+				if fin {
+					c.msgType = 0
+					c.compress = false
+					c.expectingFragments = false
+				} else {
+					c.expectingFragments = true
 				}
 			case PingMessage, PongMessage, CloseMessage:
 				isProtocolMessage = true
